@@ -99,7 +99,7 @@ func ghRun(pint, cfg string, id int, raw json.RawMessage) ([]map[string]any, err
 			f := mainTree[op.NS.Src]
 			f.Present = true
 			f.Rules = append(append([]gitrepo.Rule{}, f.Rules...),
-				gitrepo.Rule{Kind: "rec", Name: fmt.Sprintf("zz%d", nBase), Body: "v1", Lab: "l1", Cmt: "none"})
+				gitrepo.Rule{Kind: "rec", Name: fmt.Sprintf("zz%d", nBase), Body: "v1", Lab: "l1", Cmt: "none", Ext: "x0"})
 			mainTree[op.NS.Src] = f
 			if err := repo.Write(op.NS.Src, gitrepo.Render(f)); err != nil {
 				return nil, err
